@@ -270,7 +270,7 @@ func (r *Reader) traverseNode(n *html.Node, ctx *parseContext) {
 		case "li":
 			if ctx.inList {
 				// Get direct text content, not nested lists
-				text := getDirectTextContent(n)
+				text := getDirectTextContent(n, nil)
 				if text != "" {
 					ctx.listItems = append(ctx.listItems, listItem{
 						Text:  text,
@@ -300,7 +300,7 @@ func (r *Reader) traverseNode(n *html.Node, ctx *parseContext) {
 				ctx.listItems = nil
 			}
 
-			table := r.parseTable(n)
+			table := r.parseTable(n, nil)
 			if table != nil && len(table.Rows) > 0 {
 				r.elements = append(r.elements, parsedElement{
 					Type:  ElementTable,
@@ -388,7 +388,7 @@ func (r *Reader) traverseNodeFiltered(n *html.Node, ctx *parseContext, elements 
 			}
 
 			level := int(n.Data[1] - '0')
-			text := strings.TrimSpace(getTextContent(n))
+			text := strings.TrimSpace(getTextContentFiltered(n, ctx.checker))
 			if text != "" {
 				*elements = append(*elements, parsedElement{
 					Type:  ElementHeading,
@@ -410,7 +410,7 @@ func (r *Reader) traverseNodeFiltered(n *html.Node, ctx *parseContext, elements 
 				ctx.listItems = nil
 			}
 
-			text := strings.TrimSpace(getTextContent(n))
+			text := strings.TrimSpace(getTextContentFiltered(n, ctx.checker))
 			if text != "" && !isBlockContainer(n) {
 				*elements = append(*elements, parsedElement{
 					Type: ElementParagraph,
@@ -470,7 +470,7 @@ func (r *Reader) traverseNodeFiltered(n *html.Node, ctx *parseContext, elements 
 		case "li":
 			if ctx.inList {
 				// Get direct text content, not nested lists
-				text := getDirectTextContent(n)
+				text := getDirectTextContent(n, ctx.checker)
 				if text != "" {
 					ctx.listItems = append(ctx.listItems, listItem{
 						Text:  text,
@@ -500,7 +500,7 @@ func (r *Reader) traverseNodeFiltered(n *html.Node, ctx *parseContext, elements 
 				ctx.listItems = nil
 			}
 
-			table := r.parseTable(n)
+			table := r.parseTable(n, ctx.checker)
 			if table != nil && len(table.Rows) > 0 {
 				*elements = append(*elements, parsedElement{
 					Type:  ElementTable,
@@ -510,7 +510,7 @@ func (r *Reader) traverseNodeFiltered(n *html.Node, ctx *parseContext, elements 
 			return
 
 		case "pre", "code":
-			text := getTextContent(n)
+			text := getTextContentFiltered(n, ctx.checker)
 			if text != "" {
 				*elements = append(*elements, parsedElement{
 					Type:   ElementCode,
@@ -521,7 +521,7 @@ func (r *Reader) traverseNodeFiltered(n *html.Node, ctx *parseContext, elements 
 			return
 
 		case "blockquote":
-			text := strings.TrimSpace(getTextContent(n))
+			text := strings.TrimSpace(getTextContentFiltered(n, ctx.checker))
 			if text != "" {
 				*elements = append(*elements, parsedElement{
 					Type: ElementBlockquote,
@@ -561,7 +561,7 @@ func (r *Reader) traverseNodeFiltered(n *html.Node, ctx *parseContext, elements 
 }
 
 // parseTable extracts a table from an HTML table element.
-func (r *Reader) parseTable(tableNode *html.Node) *ParsedTable {
+func (r *Reader) parseTable(tableNode *html.Node, checker *exclusionChecker) *ParsedTable {
 	table := &ParsedTable{
 		Rows: make([][]TableCell, 0),
 	}
@@ -572,11 +572,11 @@ func (r *Reader) parseTable(tableNode *html.Node) *ParsedTable {
 			switch c.Data {
 			case "thead":
 				table.HasHeader = true
-				r.parseTableRows(c, table, true)
+				r.parseTableRows(c, table, true, checker)
 			case "tbody", "tfoot":
-				r.parseTableRows(c, table, false)
+				r.parseTableRows(c, table, false, checker)
 			case "tr":
-				row := r.parseTableRow(c, false)
+				row := r.parseTableRow(c, false, checker)
 				if len(row) > 0 {
 					table.Rows = append(table.Rows, row)
 				}
@@ -600,10 +600,10 @@ func (r *Reader) parseTable(tableNode *html.Node) *ParsedTable {
 }
 
 // parseTableRows parses rows within thead or tbody.
-func (r *Reader) parseTableRows(section *html.Node, table *ParsedTable, isHeader bool) {
+func (r *Reader) parseTableRows(section *html.Node, table *ParsedTable, isHeader bool, checker *exclusionChecker) {
 	for c := section.FirstChild; c != nil; c = c.NextSibling {
 		if c.Type == html.ElementNode && c.Data == "tr" {
-			row := r.parseTableRow(c, isHeader)
+			row := r.parseTableRow(c, isHeader, checker)
 			if len(row) > 0 {
 				table.Rows = append(table.Rows, row)
 			}
@@ -612,13 +612,13 @@ func (r *Reader) parseTableRows(section *html.Node, table *ParsedTable, isHeader
 }
 
 // parseTableRow parses a single table row.
-func (r *Reader) parseTableRow(tr *html.Node, isHeader bool) []TableCell {
+func (r *Reader) parseTableRow(tr *html.Node, isHeader bool, checker *exclusionChecker) []TableCell {
 	row := make([]TableCell, 0)
 
 	for c := tr.FirstChild; c != nil; c = c.NextSibling {
 		if c.Type == html.ElementNode && (c.Data == "td" || c.Data == "th") {
 			cell := TableCell{
-				Text:     strings.TrimSpace(getTextContent(c)),
+				Text:     strings.TrimSpace(getTextContentFiltered(c, checker)),
 				IsHeader: isHeader || c.Data == "th",
 				RowSpan:  1,
 				ColSpan:  1,
@@ -679,12 +679,19 @@ func findElement(n *html.Node, tagName string) *html.Node {
 
 // getTextContent extracts all text content from a node and its descendants.
 func getTextContent(n *html.Node) string {
+	return getTextContentFiltered(n, nil)
+}
+
+// getTextContentFiltered is getTextContent without the text of descendants
+// that the exclusion checker rejects (a nil checker rejects nothing). The node
+// itself is not checked; the caller has already done that.
+func getTextContentFiltered(n *html.Node, checker *exclusionChecker) string {
 	var result strings.Builder
-	getTextContentRecursive(n, &result)
+	getTextContentRecursive(n, checker, &result)
 	return strings.TrimSpace(result.String())
 }
 
-func getTextContentRecursive(n *html.Node, result *strings.Builder) {
+func getTextContentRecursive(n *html.Node, checker *exclusionChecker, result *strings.Builder) {
 	if n.Type == html.TextNode {
 		result.WriteString(n.Data)
 	}
@@ -699,7 +706,11 @@ func getTextContentRecursive(n *html.Node, result *strings.Builder) {
 		}
 	}
 	for c := n.FirstChild; c != nil; c = c.NextSibling {
-		getTextContentRecursive(c, result)
+		// Skip navigation/boilerplate nested inside a content element
+		if checker != nil && checker.shouldExclude(c) {
+			continue
+		}
+		getTextContentRecursive(c, checker, result)
 	}
 	// Add space after certain block elements
 	if n.Type == html.ElementNode {
@@ -713,14 +724,17 @@ func getTextContentRecursive(n *html.Node, result *strings.Builder) {
 // getDirectTextContent gets the text that belongs to a node itself: inline
 // content and the content of paragraph-like wrappers (p, div, blockquote),
 // excluding nested lists and tables, which the caller handles separately.
-func getDirectTextContent(n *html.Node) string {
+func getDirectTextContent(n *html.Node, checker *exclusionChecker) string {
 	var result strings.Builder
-	writeDirectTextContent(n, &result)
+	writeDirectTextContent(n, checker, &result)
 	return strings.TrimSpace(result.String())
 }
 
-func writeDirectTextContent(n *html.Node, result *strings.Builder) {
+func writeDirectTextContent(n *html.Node, checker *exclusionChecker, result *strings.Builder) {
 	for c := n.FirstChild; c != nil; c = c.NextSibling {
+		if checker != nil && checker.shouldExclude(c) {
+			continue
+		}
 		if c.Type == html.TextNode {
 			result.WriteString(c.Data)
 		} else if c.Type == html.ElementNode {
@@ -733,12 +747,12 @@ func writeDirectTextContent(n *html.Node, result *strings.Builder) {
 				if s := result.String(); s != "" && !strings.HasSuffix(s, " ") {
 					result.WriteString(" ")
 				}
-				writeDirectTextContent(c, result)
+				writeDirectTextContent(c, checker, result)
 				if s := result.String(); s != "" && !strings.HasSuffix(s, " ") {
 					result.WriteString(" ")
 				}
 			default:
-				result.WriteString(getTextContent(c))
+				result.WriteString(getTextContentFiltered(c, checker))
 			}
 		}
 	}
